@@ -66,6 +66,30 @@ def ops_len(body):
     return vals
 
 
+_BITS = {"u8": 8, "i8": 8, "u16": 16, "i16": 16, "u32": 32, "i32": 32, "u64": 64, "i64": 64, "usize": 64, "isize": 64, "u128": 128, "i128": 128}
+
+
+def narrowed_lengths(body):
+    """casts of ops.len() (or a copy of it) to a narrower integer type: [(from, to, line)].  A truncated count compared with the entry
+    limit accepts a register of 2^bits + k ops as one of k ops."""
+    vals = ops_len(body)
+    out = []
+    for b in body.blocks:
+        if b["cleanup"]:
+            continue
+        for st in b["stmts"]:
+            rv = st["rv"]
+            if rv["k"] != "cast" or len(st["d"]) != 1 or rv["a"][0] not in ("cp", "mv") or len(rv["a"][1]) != 1:
+                continue
+            src = rv["a"][1][0]
+            if src not in vals:
+                continue
+            tf, tt_ = body.locals.get(str(src), ""), body.locals.get(str(st["d"][0]), "")
+            if tf in _BITS and tt_ in _BITS and _BITS[tt_] < _BITS[tf]:
+                out.append((tf, tt_, st.get("l") or body.lines[0]))
+    return out
+
+
 def accept_relation(F, body, sink_blocks, lens):
     """(relation, K) such that the branch towards the sink is taken iff `len <relation> K`."""
     prep(body)
@@ -257,6 +281,13 @@ def run(R):
                     ok = False
                     R.viol("C06.limit", "add-exceeds-verify", "add_op can produce a register with %d ops but verify() accepts at most %d" % (reach + 1, vmax), ver, v[2])
         R.inst("C06.limit", "K9 constant relation", "max ops.len() reachable through add_op is accepted by verify()", 2, ok, detail)
+        # the count reaches the comparison with the limit un-narrowed (seed C06-r6: `ops.len() as u16` takes the count modulo 65536, and
+        # a union of 64 full replicas — merge is unbounded, see the known finding — verifies and accepts further ops)
+        nl = [(fn_, x) for fn_, b_ in (("add_op", add), ("verify", ver)) for x in narrowed_lengths(b_)]
+        for fn_, (tf, tt_, ln) in nl:
+            R.viol("C06.limit.width", "length-narrowed:%s:%s->%s" % (fn_, tf, tt_), "%s compares the entry limit with ops.len() truncated to %s: a register holding 2^%d + k ops "
+                   "is taken for one holding k" % (fn_, tt_, _BITS[tt_]), add if fn_ == "add_op" else ver, ln)
+        R.inst("C06.limit.width", "K6 flows-to (width)", "ops.len() reaches the entry-limit comparison of add_op / verify without a narrowing cast", len(ops_len(add)) + len(ops_len(ver)), not nl)
         # merges
         for fn in ("merge", "verified_merge"):
             b = R.body("C06.limit.merge", SR + "::" + fn)
